@@ -80,6 +80,12 @@ static void blk_sequences(void) {
 	if (vh_next()) { venv_reset(SA); static uint8_t R[1000][32]; int n = 0; for (int i = 0; i < reps; i++) { SM2_SIGNATURE s; if (sm2_do_sign(&CK[0], DG, &s) != 1) break; memcpy(R[n++], s.r, 32); } vh_eval(5552); for (int i = 0; i < n; i++) for (int j = i + 1; j < n; j++) if (!memcmp(R[i], R[j], 32)) { vh_viol("C18:sequences:sm2_do_sign-reuses-a-nonce", "\"i\":%d,\"j\":%d", i, j); i = n; break; } }
 	if (vh_next()) { venv_reset(SA); static uint8_t R[1000][64]; int n = 0; for (int i = 0; i < reps / 4; i++) { SM2_CIPHERTEXT C; if (sm2_do_encrypt(&CK[1], MSG40, 40, &C) != 1) break; memcpy(R[n++], &C.point, 64); } vh_eval(5553); for (int i = 0; i < n; i++) for (int j = i + 1; j < n; j++) if (!memcmp(R[i], R[j], 64)) { vh_viol("C18:sequences:sm2_do_encrypt-reuses-a-nonce", "\"i\":%d,\"j\":%d", i, j); i = n; break; } }
 	if (vh_next()) { venv_reset(SA); SM2_ENC_CTX c; sm2_encrypt_init(&c); static uint8_t R[300][64]; int n = 0; for (int i = 0; i < reps / 4; i++) { uint8_t ct[400]; size_t cl = 0; sm2_encrypt_reset(&c); sm2_encrypt_update(&c, MSG40, 40); if (sm2_encrypt_finish(&c, &CK[1], ct, &cl) != 1) break; SM2_CIPHERTEXT C; const uint8_t *p = ct; size_t l = cl; sm2_ciphertext_from_der(&C, &p, &l); memcpy(R[n++], &C.point, 64); } vh_eval(5554); for (int i = 0; i < n; i++) for (int j = i + 1; j < n; j++) if (!memcmp(R[i], R[j], 64)) { vh_viol("C18:sequences:streaming-encryptor-reuses-a-nonce", "\"i\":%d,\"j\":%d", i, j); i = n; break; } }
+	/* one entropy failure anywhere in a long run of the streaming signer, the caller carrying on with the same context afterwards:
+	   every signature that is returned must verify and no nonce may repeat (same message => equal r iff equal nonce) */
+	for (long fi = 0; fi < 100; fi++) { if (!vh_next()) continue; venv_reset(SA); venv_fail_at(fi); SM2_SIGN_CTX c; vh_eval(vh_mix(770000 + (uint64_t)fi)); if (sm2_sign_init(&c, &CK[0], SM2_DEFAULT_ID, 16) != 1) continue; static uint8_t R[120][32]; int n = 0, failed = 0, bad = -1;
+		for (int i = 0; i < 110; i++) { uint8_t sig[80]; size_t sl = 0; sm2_sign_reset(&c); sm2_sign_update(&c, MSG40, 40); if (sm2_sign_finish(&c, sig, &sl) != 1) { failed++; continue; } SM2_VERIFY_CTX v; sm2_verify_init(&v, &CK[0], SM2_DEFAULT_ID, 16); sm2_verify_update(&v, MSG40, 40); if (sm2_verify_finish(&v, sig, sl) != 1 && bad < 0) bad = i; SM2_SIGNATURE sg; const uint8_t *p = sig; size_t l = sl; sm2_signature_from_der(&sg, &p, &l); memcpy(R[n++], sg.r, 32); }
+		if (bad >= 0) vh_viol("C18:sequences:signature-after-entropy-failure-does-not-verify", "\"failing_draw\":%ld,\"signature_index\":%d", fi, bad);
+		for (int i = 0; i < n; i++) for (int j = i + 1; j < n; j++) if (!memcmp(R[i], R[j], 32)) { vh_viol("C18:sequences:nonce-reused-after-entropy-failure", "\"failing_draw\":%ld,\"i\":%d,\"j\":%d,\"failed_calls\":%d", fi, i, j, failed); i = n; break; } }
 }
 /* ---- handshake roles ---- */
 typedef struct { int status, c_hs, s_hs; long c_draws, s_draws; int c_failed, s_failed, late_records; uint8_t first_c[200], first_s[200]; size_t fcl, fsl; uint64_t transcript; } hout_t; static hout_t *HO; static side_creds HS[3], HC[3]; static char HFAIL[32];
